@@ -38,6 +38,9 @@ class Recorder:
         # step uuid -> iteration orders of the uuid sets of the step OBJECT THAT RUNS (Engine.compute deep-copies the plan
         # for every run, and the copy of a set need not iterate like the original)
         self.orders: Dict[Any, Dict[str, List[Any]]] = {}
+        # step uuid -> the calculation was OBSERVED to be in place: calculate_feature returned the very object it was handed
+        # (cfw.data) or a pandas Series (which PandasDataFrame.transform inserts into the frame the object holds)
+        self.style: Dict[Any, bool] = {}
 
     def ev(self, kind: str, u: Any) -> None:
         with self.lock:
@@ -47,6 +50,7 @@ class Recorder:
 
 REC = Recorder()
 _installed = [False]
+_TL = threading.local()               # .step = uuid of the step whose execute() runs on this thread
 
 
 def install() -> None:
@@ -75,11 +79,14 @@ def install() -> None:
             REC.ev("begin", self.uuid)
             if REC.gating and gate_at_entry:
                 _wait_gate(self.uuid)
+            _TL.step = self.uuid
             try:
                 r = orig(self, *a, **kw)
             except BaseException:
                 REC.ev("raise", self.uuid)
                 raise
+            finally:
+                _TL.step = None
             REC.ev("end", self.uuid)
             return r
         cls.execute = execute
@@ -87,6 +94,22 @@ def install() -> None:
     wrap(FeatureGroupStep, False)     # FG steps are gated inside calculate_feature (after the data was read)
     wrap(TransformFrameworkStep, True)
     wrap(JoinStep, True)
+
+    # observed result style of every calculation (in place / replacing), at the boundary run_calculation sees
+    from mloda.core.abstract_plugins.compute_framework import ComputeFramework
+    orig_rcf = ComputeFramework.run_calculate_feature
+
+    def run_calculate_feature(self: Any, feature_group: Any, features: Any) -> Any:
+        handed = self.data
+        res = orig_rcf(self, feature_group, features)
+        try:
+            u = getattr(_TL, "step", None)
+            if u is not None:
+                REC.style[u] = bool(handed is not None and (res is handed or type(res).__name__ == "Series"))
+        except Exception:  # noqa: BLE001
+            pass
+        return res
+    ComputeFramework.run_calculate_feature = run_calculate_feature  # type: ignore[method-assign]
 
     orig_iter = ExecutionPlan.__iter__
 
@@ -270,6 +293,7 @@ def run_observed(session: Any, modes: Optional[Set[Any]] = None, stream: bool = 
             objs[x] = len(objs) + 1
         return objs[x]
     out["foot"] = {u2s.get(k, -1): (oid(w), [oid(w)] + ([oid(r)] if r is not None else [])) for k, (w, r) in REC.foot.items()}
+    out["style"] = {u2s.get(k, -1): v for k, v in REC.style.items()}
     if ren is not None:
         out["orders"] = {u2s.get(k, -1): {"req": [ren.get(u, 0) for u in v["req"]], "tfs": [ren.get(u, 0) for u in v["tfs"]],
                                           "left": [ren.get(u, 0) for u in v["left"]], "right": [ren.get(u, 0) for u in v["right"]],
